@@ -61,11 +61,7 @@ fn astro_tok(a: &[f64; 5]) -> String {
 }
 
 fn sizes(tier: &str, quick: u64, thorough: u64) -> u64 {
-    if tier == "thorough" {
-        thorough
-    } else {
-        quick
-    }
+    sz!(tier, quick, thorough)
 }
 
 // ---------------------------------------------------------------- angle
@@ -115,7 +111,7 @@ fn civil_line(rd: i64) -> (String, String) {
 pub const RD_MAX: i64 = 3652059; // 9999-12-31
 
 pub fn unit_civil(o: &mut Out, tier: &str, r: &mut Rng) {
-    if tier == "thorough" {
+    if tier != "quick" {
         for rd in 1..=RD_MAX {
             let (a, b) = civil_line(rd);
             o.case(a, b);
@@ -350,7 +346,7 @@ pub fn h2t_case(p: &Params, pr: Prayer, hour: f64) -> (String, String) {
 
 pub fn unit_h2t(o: &mut Out, tier: &str, r: &mut Rng) {
     // every second of the day at mid-second (thorough) or a stride plus all edges (quick)
-    let stride: u32 = if tier == "thorough" { 1 } else { 37 };
+    let stride: u32 = sz!(tier, 37, 1);
     for (mi, mode) in ROUNDS.iter().enumerate() {
         for (pi, pr) in PRAYERS.iter().enumerate() {
             let mut p = Params::new(Method::Isna);
@@ -413,7 +409,7 @@ fn hijri_line(rd: i64) -> (String, String) {
 }
 
 pub fn unit_hijri(o: &mut Out, tier: &str, r: &mut Rng) {
-    if tier == "thorough" {
+    if tier != "quick" {
         for rd in 1..=RD_MAX {
             let (a, b) = hijri_line(rd);
             o.case(a, b);
